@@ -691,6 +691,7 @@ def run_type(ctx, drv_reqs, node, cases):
     """evaluate the oracle on the implementation for every generated value of one
     type and queue the model requests; returns the list of per-case records"""
     recs = []
+    n_buf = 0
     for sg, obj in cases:
         case = {"type": node.name, "t": node.idx, "sig": sg}
         try:
@@ -746,6 +747,10 @@ def run_type(ctx, drv_reqs, node, cases):
             elif dec["re"]["hex"] != case_hex:
                 ctx.fail("reencode-octets", dict(case, hex=case_hex, re=dec["re"]["hex"]),
                          "re-encoded octets differ for %s" % node.name, type=node.name)
+        # --- caller-owned buffers: decoding must not eat or alias the octets it was given
+        if dec is not None and case_hex and n_buf < 3:
+            n_buf += 1
+            buffer_checks(ctx, node, case, case_hex, v)
         # --- APCISequence: a tag after the last parameter must be refused (TooManyArguments
         #     or another reject-family error), never silently accepted
         if dec is not None and node.apci:
@@ -770,6 +775,71 @@ def run_type(ctx, drv_reqs, node, cases):
                              {"r": "ok", "tv": typed, "re": dec["re"].get("hex", "err")}, case))
         recs.append((case, enc, dec))
     return recs
+
+
+def buffer_checks(ctx, node, case, hexs, v):
+    """PDUData / PDU / APDU constructed from a CALLER-OWNED bytearray (and from another
+    PDU's pduData, as the layers of the stack do): after decoding the caller's buffer is
+    unchanged, a second decode from the same buffer gives the same value, and scribbling
+    over the buffer afterwards does not change what was decoded"""
+    from bacpypes.comm import PDUData
+    from bacpypes.pdu import PDU
+    from bacpypes.apdu import APDU
+    from bacpypes.primitivedata import TagList
+    keep = bytes.fromhex(hexs)
+
+    def decode_from(make):
+        src = make()
+        if node.apci:
+            obj = node.cls()
+            obj.decode(src)
+        else:
+            tl = TagList()
+            tl.decode(src)
+            obj = node.cls()
+            obj.decode(tl)
+        return obj
+    try:
+        for label, wrap in (("PDUData(bytearray)", lambda b: PDUData(b)), ("PDU(bytearray)", lambda b: PDU(b)),
+                            ("APDU(bytearray)", lambda b: APDU(b)),
+                            ("PDU(other.pduData)", None)):
+            buf = bytearray(keep)
+            if wrap is None:
+                outer = PDU(bytes(keep))
+                owner = outer.pduData               # the upstream layer's buffer
+                make = (lambda: APDU(outer.pduData)) if node.apci else (lambda: PDU(outer.pduData))
+            else:
+                owner = buf
+                if node.apci and not label.startswith("APDU"):
+                    continue
+                if not node.apci and label.startswith("APDU"):
+                    continue
+                make = lambda wrap=wrap, buf=buf: wrap(buf)      # noqa: E731
+            first = decode_from(make)
+            t1 = tree(node, first)
+            if bytes(owner) != keep:
+                ctx.fail("buffer-consumed", dict(case, hex=hexs, how=label, left=bytes(owner).hex()),
+                         "decoding %s from %s consumed the caller's octets (%d of %d left)" % (
+                             node.name, label, len(owner), len(keep)), type=node.name, how=label)
+                return
+            second = decode_from(make)
+            if core.canon(tree(node, second)) != core.canon(t1) or core.canon(t1) != core.canon(v):
+                ctx.fail("buffer-second-decode", dict(case, hex=hexs, how=label),
+                         "a second decode of %s from the same %s gives a different value" % (node.name, label),
+                         type=node.name, how=label)
+                return
+            for i in range(len(owner)):
+                owner[i] ^= 0xFF
+            if core.canon(tree(node, first)) != core.canon(t1):
+                ctx.fail("buffer-aliased", dict(case, hex=hexs, how=label),
+                         "overwriting the caller's buffer after decoding changed the decoded %s" % node.name,
+                         type=node.name, how=label)
+                return
+    except core.Infra:
+        raise
+    except Exception as e:
+        ctx.fail("buffer-consumed", dict(case, hex=hexs), "%s: decoding from a caller-owned buffer: %s: %s" % (
+            node.name, type(e).__name__, e), type=node.name)
 
 
 def mutate(tags, rng):
@@ -1142,6 +1212,95 @@ def any_case(ctx, sch, g, rng, label, ref, reqs, otype=None, pid=None, any_cls=N
                  exc=type(e).__name__)
 
 
+def make_incomplete(node, obj):
+    """break the live object in place so that encoding it RAISES, preferably after it
+    has already emitted some tags (a later required element missing, the last member of a
+    list incomplete); returns True if it managed to"""
+    from bacpypes import constructeddata as cd
+    if node.k == "seq":
+        req = [i for i, f in enumerate(node.fields) if not f.opt]
+        if req:
+            setattr(obj, node.fields[req[-1]].name, None)
+            return True
+        for f in reversed(node.fields):
+            x = getattr(obj, f.name, None)
+            if x is not None and f.ref.k == "ty" and not isinstance(x, list) and make_incomplete(f.ref.node, x):
+                return True
+        return False
+    if node.k == "choice":
+        for f in node.fields:
+            x = getattr(obj, f.name, None)
+            if x is not None:
+                if f.ref.k == "ty" and not isinstance(x, list):
+                    return make_incomplete(f.ref.node, x)
+                return False
+        return False
+    if node.k == "list":
+        items = obj.value[1:] if isinstance(obj, cd.Array) else obj.value
+        if items and node.elem.k == "ty":
+            return make_incomplete(node.elem.node, items[-1])
+        return False
+    return False
+
+
+def any_retry_case(ctx, sch, g, rng, label, ref, reqs, any_cls=None):
+    """cast_in of an INCOMPLETE value (must raise) must leave the Any as it was; the
+    corrected cast_in on the SAME Any then holds exactly the encoding of the corrected value"""
+    from bacpypes.constructeddata import Any
+    node = ref.node
+    case = {"any": label, "retry": True, "class": ref.cls.__name__, "ref": ref_json(ref), "type_name": node.name}
+    try:
+        good = None
+        for _ in range(6):
+            cand = g.node_value(node, 1, {"len": 2} if node.k == "list" and node.fixed is None else None, cls=ref.cls)
+            v = tree(node, cand)
+            bad = obj_from_tree(node, v, cls=ref.cls)
+            if make_incomplete(node, bad):
+                good = cand
+                break
+        if good is None:
+            return
+        case["v"] = v
+        a = (any_cls or Any)()
+        prior = []
+        if any_cls is None and rng.random() < 0.5:
+            a.cast_in(g.atom())
+            prior = [jtag(t) for t in a.tagList.tagList]
+        try:
+            a.cast_in(bad)
+        except Exception:
+            pass
+        else:
+            return                      # this incomplete value happens to encode: not a failure case
+        ctx.count("any-retry", (label.split(":")[0], node.k))
+        left = [jtag(t) for t in a.tagList.tagList]
+        if left != prior:
+            ctx.fail("any-cast-in-debris", dict(case, left=left, before=prior),
+                     "a cast_in(%s) that raised left %d tag(s) behind in the Any" % (label, len(left) - len(prior)),
+                     type=label)
+            return
+        a.cast_in(good)
+        tags = [jtag(t) for t in a.tagList.tagList]
+        reqs.append(({"op": "castin", "ref": case["ref"], "v": v}, {"r": "ok", "tags": tags[len(prior):]}, case))
+        if any_cls is None and not prior:
+            cname, ccls, build, get = rng.choice(any_containers(rng, a))
+            hex1 = pdu_octets(build())
+            out = get(pdu_from_octets(ccls, hex1)).cast_out(ref.cls)
+            if core.canon(cast_tree(ref, out)) != core.canon(v):
+                ctx.fail("any-cast-value", dict(case, hex=hex1, container=cname),
+                         "after a failed and a corrected cast_in the %s in a %s decodes to a different value" % (
+                             label, cname), type=label)
+        elif not prior:
+            out = a.cast_out(ref.cls)
+            if core.canon(cast_tree(ref, out)) != core.canon(v):
+                ctx.fail("any-cast-value", case, "after a failed and a corrected cast_in: cast_out differs", type=label)
+    except core.Infra:
+        raise
+    except Exception as e:
+        ctx.fail("any-cast-raises", case, "%s (retry): %s: %s" % (label, type(e).__name__, e), type=label,
+                 exc=type(e).__name__)
+
+
 def run_any(ctx, drv, spec=None):
     """cast_in / cast_out of Any and SequenceOfAny:
        direct  — a sample of EVERY constructed type, list, array and atomic class;
@@ -1182,6 +1341,8 @@ def run_any(ctx, drv, spec=None):
     for _ in range(reps):
         for label, r, otype, pid, acls in targets:
             any_case(ctx, sch, g, rng, label, r, reqs, otype, pid, acls)
+            if r.k == "ty" and (label.startswith("direct:") or label.startswith("seqany:")):
+                any_retry_case(ctx, sch, g, rng, label, r, reqs, acls)
     if drv and reqs:
         model = drv.ask([r for r, _a, _c in reqs])
         ctx.compare_stream("any", [dict(r, any=c["any"]) for r, _a, c in reqs], [a for _r, a, _c in reqs], model,
@@ -1225,6 +1386,13 @@ def replay_any(ctx, drv, case):
         elem = Tag(0, v["a"][0], v["a"][1], bytes.fromhex(v["a"][2])).app_to_object()
     reqs = []
     label = case.get("any", "replay")
+    if case.get("retry"):
+        reqs = []
+        for _ in range(30):
+            any_retry_case(ctx, sch, g, rng, label, ref, reqs, SequenceOfAny if label.startswith("seqany:") else None)
+        for _ in reqs:
+            ctx.count("any")
+        return
     # every container, so that the one that failed is among them
     for _ in range(8):
         any_case(ctx, sch, g, rng, label, ref, reqs, case.get("otype"), case.get("pid"),
@@ -1836,16 +2004,21 @@ def fresh_entry():
                "extra": sub.extra}, sys.stdout, default=str)
 
 
-def run_fresh(ctx, fn, spec):
+def spawn_fresh(tier, seed, model_ok, fn, spec):
     env = dict(os.environ, VERIF_REPO=core.REPO, PYTHONDONTWRITEBYTECODE="1", TZ="UTC")
     env.pop("PYTHONPATH", None)
     code = "import sys; sys.path.insert(0, %r); from harness import c03; c03.fresh_entry()" % core.VERIF
-    req = {"fn": fn, "spec": spec, "tier": ctx.tier, "seed": ctx.seed, "model_ok": bool(ctx.model_ok)}
+    req = {"fn": fn, "spec": spec, "tier": tier, "seed": seed, "model_ok": bool(model_ok)}
     p = subprocess.run([sys.executable, "-c", code], input=json.dumps(req), stdout=subprocess.PIPE,
                        stderr=subprocess.PIPE, text=True, env=env, cwd=core.VERIF, timeout=1200)
     if p.returncode != 0:
-        raise core.Infra("fresh worker %s failed: %s" % (fn, p.stderr[-800:]))
-    d = json.loads(p.stdout)
+        return {"infra": "fresh worker %s failed: %s" % (fn, p.stderr[-800:])}
+    return json.loads(p.stdout)
+
+
+def merge_fresh(ctx, d):
+    if "infra" in d:
+        raise core.Infra(d["infra"])
     ctx.failures.extend(d["failures"])
     ctx.disagreements.extend(d["disagreements"])
     ctx.evaluations += d["evaluations"]
@@ -1856,6 +2029,18 @@ def run_fresh(ctx, fn, spec):
     ctx.streams.update(d["streams"])
     ctx.errkinds.update(d["errkinds"])
     return d["extra"]
+
+
+def run_fresh(ctx, fn, spec):
+    return merge_fresh(ctx, spawn_fresh(ctx.tier, ctx.seed, ctx.model_ok, fn, spec))
+
+
+def run_fresh_many(ctx, jobs):
+    """several fresh interpreters side by side; results merged in order"""
+    from concurrent.futures import ThreadPoolExecutor
+    with ThreadPoolExecutor(max_workers=min(8, len(jobs))) as ex:
+        futs = [ex.submit(spawn_fresh, ctx.tier, ctx.seed, ctx.model_ok, fn, spec) for fn, spec in jobs]
+        return [merge_fresh(ctx, f.result()) for f in futs]
 
 
 # ------------------------------------------------------------------ the `subclass-history` stream
@@ -2186,12 +2371,12 @@ def fresh_through_stack(ctx, spec):
 
 
 def run_histories(ctx):
-    ex = {}
-    for order in ("parent-first", "subclass-first", "bare-first"):
-        ex[order] = run_fresh(ctx, "fresh_subclass_history", [order, 3 if ctx.quick else 60, 6 if ctx.quick else 120])
-    ctx.extra["subclass_history"] = {"orders": sorted(ex), "subclasses": (ex.get("parent-first") or {}).get("subclasses")}
-    e = run_fresh(ctx, "fresh_through_stack", 4 if ctx.quick else 40)
-    ctx.extra["through_stack_exchanges"] = e.get("through_stack_exchanges")
+    orders = ("parent-first", "subclass-first", "bare-first")
+    jobs = [("fresh_subclass_history", [o, 2 if ctx.quick else 60, 4 if ctx.quick else 120]) for o in orders]
+    jobs.append(("fresh_through_stack", 4 if ctx.quick else 40))
+    ex = run_fresh_many(ctx, jobs)
+    ctx.extra["subclass_history"] = {"orders": sorted(orders), "subclasses": (ex[0] or {}).get("subclasses")}
+    ctx.extra["through_stack_exchanges"] = (ex[3] or {}).get("through_stack_exchanges")
 
 
 # ------------------------------------------------------------------ Annex F (tests, labelled as tests)
@@ -2390,7 +2575,7 @@ def run(ctx):
     run_decode_first(ctx, drv, 2 if ctx.quick else 8, 2 if ctx.quick else 8)
     run_histories(ctx)
     core.run_shards(ctx, "harness.c03", "shard_mutate",
-                    [(k, 16, 2 if ctx.quick else 40) for k in range(16)])
+                    [(k, 16, 1 if ctx.quick else 40) for k in range(16)])
     typed, skipped = typed_any_targets(sch)
     ctx.extra["any_stream"] = {"object_property_datatypes": len(typed),
                                "distinct_datatype_classes": len(set(t[1].cls for t in typed)),
@@ -2402,7 +2587,7 @@ def run(ctx):
         core.run_shards(ctx, "harness.c03", "shard_any", [(k, 16, 12) for k in range(16)])
     n = len(sch.nodes)
     if ctx.quick:
-        specs = [(sl, 10, 30, "q%d" % k) for k, sl in enumerate(type_slices(n, 16))]
+        specs = [(sl, 6, 20, "q%d" % k) for k, sl in enumerate(type_slices(n, 16))]
     else:
         specs = []
         for rep in range(16):
